@@ -3,6 +3,7 @@ package errors
 import (
 	goerrors "errors"
 	"fmt"
+	"math"
 	"net/url"
 	"os/exec"
 	"strconv"
@@ -417,17 +418,26 @@ func NewRetriableLaterError(err error, header string) error {
 
 	secs, parseErr := strconv.Atoi(header)
 	if parseErr == nil {
+		// A delay too long to be expressed as a time.Duration is still
+		// a very long delay, not one that has passed already.
+		if maxSecs := int(math.MaxInt64 / int64(time.Second)); secs > maxSecs {
+			secs = maxSecs
+		}
 		return retriableLaterError{
 			wrappedError:  newWrappedError(err, ""),
 			timeAvailable: time.Now().Add(time.Duration(secs) * time.Second),
 		}
 	}
 
-	parseTime, parseErr := time.Parse(time.RFC1123, header)
-	if parseErr == nil {
-		return retriableLaterError{
-			wrappedError:  newWrappedError(err, ""),
-			timeAvailable: parseTime,
+	// An HTTP-date in its preferred form or one of the two obsolete forms
+	// that a recipient has to accept as well.
+	for _, layout := range []string{time.RFC1123, time.RFC850, time.ANSIC} {
+		parseTime, parseErr := time.Parse(layout, header)
+		if parseErr == nil {
+			return retriableLaterError{
+				wrappedError:  newWrappedError(err, ""),
+				timeAvailable: parseTime,
+			}
 		}
 	}
 
